@@ -63,10 +63,13 @@ def enumerate_cases(tier, scope):
         ['list_all'], ['list_pid', 0], ['list_pid', 3], ['delete', 0, None], ['delete', 3, 'a'], ['delete', 0, 'b'],
         ['delete_pid', 0], ['delete_pid', 3], ['progress', 0], ['run_loaded', 0, None], ['run_loaded', 1, 'a'],
     ]
+    alphabet.append(['save_purging', 0, 'b'])
     for kind in PID_SETS:
         for a in alphabet:
             for b in alphabet:
                 yield {'pid_kind': kind, 'ops': base_ops + [a, b, ['load', 0, None], ['load', 1, 'a'], ['list_all']]}
+                if kind == 'int':
+                    yield {'pid_kind': kind, 'two_handles': True, 'ops': base_ops + [a, ['list_all'], b, ['list_pid', 0], ['load', 0, None], ['delete_pid', 0], ['list_all']]}
     # a save that is refused (the process cannot be serialised right now) is not a save: the previous snapshot stays
     for kind in PID_SETS:
         for dirname in DIRNAMES:
@@ -96,7 +99,9 @@ def _cases(draw, tier):
         tag = draw(st.sampled_from(tags))
         if kind in ('save', 'progress', 'poison', 'heal'):
             p = draw(st.integers(0, 2))
-            ops.append([kind, p, tag] if kind == 'save' else [kind, p])
+            if kind == 'save' and draw(st.integers(0, 5)) == 0:
+                kind = 'save_purging'
+            ops.append([kind, p, tag] if kind in ('save', 'save_purging') else [kind, p])
         elif kind in ('load', 'delete', 'run_loaded'):
             ops.append([kind, p, tag])
         elif kind in ('list_pid', 'delete_pid'):
@@ -106,6 +111,7 @@ def _cases(draw, tier):
     case = {'pid_kind': draw(st.sampled_from(['int', 'int', 'str', 'uuid'])), 'tag_kind': tag_kind, 'ops': ops}
     if draw(st.integers(0, 2)) == 0:
         case['dirname'] = draw(st.sampled_from(DIRNAMES))
+    case['two_handles'] = draw(st.booleans())
     return case
 
 
@@ -209,6 +215,8 @@ def execute(case):
     hist = []
     try:
         persisters = {'memory': persistence.InMemoryPersister(), 'pickle': persistence.PicklePersister(pickle_dir)}
+        # a second handle on the same pickle directory: the directory is the store, not the object
+        second = persistence.PicklePersister(pickle_dir) if case.get('two_handles') else None
         for opno, op in enumerate(case['ops']):
             kind = op[0]
             where = f'op #{opno} {op}'
@@ -226,9 +234,17 @@ def execute(case):
                 continue
             results = {}
             for name, pers in persisters.items():
+                if name == 'pickle' and second is not None and (opno * 7 + len(case['ops'])) % 3 == 0:
+                    pers = second
+                    classes.add('second-handle-used')
                 try:
-                    if kind == 'save':
-                        results[name] = ('ok', pers.save_checkpoint(system.procs[op[1]], op[2]))
+                    if kind in ('save', 'save_purging'):
+                        if kind == 'save_purging':
+                            system.world.extra['purge_on_save'] = pers
+                        try:
+                            results[name] = ('ok', pers.save_checkpoint(system.procs[op[1]], op[2]))
+                        finally:
+                            system.world.extra.pop('purge_on_save', None)
                     elif kind in ('load', 'run_loaded'):
                         bundle = pers.load_checkpoint(pids[op[1]], op[2])
                         if kind == 'run_loaded':
@@ -249,7 +265,20 @@ def execute(case):
                 except Exception as exc:  # noqa: BLE001
                     results[name] = ('raise', exc)
             # the model
-            if kind == 'save' and op[1] in poisoned:
+            if kind == 'save_purging' and op[1] not in poisoned:
+                proc = system.procs[op[1]]
+                key = (proc.pid, op[2])
+                for old in [k for k in model if k[0] == proc.pid]:
+                    del model[old]
+                model[key] = copy.deepcopy(persistence.Bundle(proc))
+                touched_since_save.discard(key)
+                classes.add('save-purging-own-checkpoints')
+                expected = ('ok', None)
+            elif kind in ('save', 'save_purging') and op[1] in poisoned:
+                if kind == 'save_purging':
+                    # the application purged its checkpoints itself before the save was refused
+                    for old in [k for k in model if k[0] == system.procs[op[1]].pid]:
+                        del model[old]
                 expected = ('raise', None)
                 classes.add('refused-save')
                 if (system.procs[op[1]].pid, op[2]) in model:
@@ -318,7 +347,7 @@ def execute(case):
     finally:
         system.close()
         shutil.rmtree(tmpdir, ignore_errors=True)
-    nontrivial = bool(classes & {'overwrite', 'delete-absent', 'progress-between-save-and-load', 'run-loaded', 'refused-save-over-existing-key'})
+    nontrivial = bool(classes & {'overwrite', 'delete-absent', 'progress-between-save-and-load', 'run-loaded', 'refused-save-over-existing-key', 'save-purging-own-checkpoints'})
     classes.add('pids:' + case['pid_kind'])
     if case.get('dirname'):
         classes.add('dir:' + case['dirname'])
